@@ -988,9 +988,12 @@ type AbacoBuffersType struct {
 	droppedFrames  int
 }
 
+// abacoReadTimeout is how long the reader waits for data before it ends the source by itself.
+const abacoReadTimeout = 5 * time.Second
+
 func (as *AbacoSource) readerMainLoop() {
 	defer close(as.buffersChan)
-	const timeoutPeriod = 5 * time.Second
+	const timeoutPeriod = abacoReadTimeout
 	timeout := time.NewTimer(timeoutPeriod)
 	defer timeout.Stop()
 	ticker := time.NewTicker(as.readPeriod)
@@ -1125,6 +1128,11 @@ awaitmoredata:
 // for Lancero), we'll also want to handle those changes in this loop.
 func (as *AbacoSource) getNextBlock() chan *dataBlock {
 	panicTime := time.Duration(cap(as.buffersChan)) * as.readPeriod
+	// When the hardware falls silent, the reader ends the source by itself after abacoReadTimeout (and may notice
+	// that up to one blocking read late). The panic below is only for a reader that is stuck, so it must not fire first.
+	if panicTime < 2*abacoReadTimeout {
+		panicTime = 2 * abacoReadTimeout
+	}
 	panicTime = verifDuration("abaco.panicTime", panicTime)
 	go func() {
 		for {
